@@ -8,7 +8,7 @@
     "at most once, nothing after it, and never forgotten" (see connectionLost_exactly_once_partial). *)
 From Coq Require Import List Arith Bool NArith.
 From C14 Require Import Model.
-From C15 Require Import Model FdFacts Proofs.
+From C15 Require Import Model FdFacts Proofs Progress.
 Import ListNotations.
 
 (** byte conservation: what side s wrote (accepted by write / writeSequence) is exactly what the peer's protocol has
@@ -48,7 +48,9 @@ Print Assumptions no_data_after_connectionLost.
     PROVED: at most once (above); it has been called iff the socket attribute is gone; and while the socket is
     there a requested close can not be forgotten -- with unsent bytes, a pending loseConnection or a pending
     half-close the descriptor is registered for writing, and after abortConnection the delayed call is scheduled.
-    MISSING: the fairness / termination argument (a property of the real reactor loop and kernel, the oracle). *)
+    MISSING: fairness -- that the real reactor loop does dispatch a registered descriptor / a due delayed call and
+    that the real kernel eventually accepts the bytes (the oracle).  The two theorems after this one show that
+    nothing else is missing: under the co-operative schedule the close completes in a bounded number of steps. *)
 Theorem connectionLost_exactly_once_partial : forall sl bs halfA halfB tr s,
   let p := ep_of (wrun sl bs halfA halfB tr) s in
   (has_sock p = false <-> exists r, In (PLost r) (tlog p)) /\
@@ -57,6 +59,29 @@ Theorem connectionLost_exactly_once_partial : forall sl bs halfA halfB tr s,
    (aborting p = true -> abort_pending p = true)).
 Proof. exact run_once_partial. Qed.
 Print Assumptions connectionLost_exactly_once_partial.
+
+(** ... and the descriptor being registered is enough: from any reachable state with loseConnection pending, the
+    schedule [drain n] in which the reactor dispatches doWrite and the kernel accepts what is offered (at most
+    SEND_LIMIT per call; every one of these choices is allowed by the oracle: [valid_from]) reaches connectionLost
+    within (number of unsent bytes + 1) dispatches.  [Progress.drain n s w] is that schedule: n times
+    [Wr s (SOk (min SEND_LIMIT (length offered)))]. *)
+Theorem loseConnection_completes_when_kernel_accepts : forall sl bs halfA halfB tr s,
+  0 < sl ->
+  let w := wrun sl bs halfA halfB tr in
+  has_sock (ep_of w s) = true -> aborting (ep_of w s) = false -> disconnecting (fd (ep_of w s)) = true ->
+  exists n, n <= length (unsent (fd (ep_of w s))) + 1 /\
+    valid_from sl bs w (drain sl bs n s w) = true /\
+    has_sock (ep_of (wrun_from sl bs w (drain sl bs n s w)) s) = false.
+Proof. exact run_close_completes. Qed.
+Print Assumptions loseConnection_completes_when_kernel_accepts.
+
+(** after abortConnection the delayed call (scheduled: previous theorem) is allowed to run and ends the connection *)
+Theorem abortConnection_completes_at_the_delayed_call : forall sl bs halfA halfB tr s,
+  let w := wrun sl bs halfA halfB tr in
+  abort_pending (ep_of w s) = true ->
+  enabled sl bs w (Tick s) = true /\ has_sock (ep_of (wstep sl bs w (Tick s)) s) = false.
+Proof. exact run_abort_completes. Qed.
+Print Assumptions abortConnection_completes_at_the_delayed_call.
 
 (** an orderly schedule (no abortConnection, no kernel error result, no hang-up report) only ever reports
     ConnectionDone *)
